@@ -56,6 +56,9 @@ claimed = {
  "C18": dict(
    text="Lean 4 proof on a finite-map model of the directory, for every directory and arguments: a failing newcase leaves the directory unchanged, a successful one changes no existing file, failure exactly when case file, script or to-be-created driver exist (C18_add_fail, C18_add_fresh, C18_add_exact); every file delcase removes other than the named case file is the deleted case's driver or script and is referenced exactly once over all cases in either role (C18_del_safe, all branches incl. error paths); iteration enumerates exactly the *.json names with non-empty stem (C18_iter). Tie: operation-sequence differential on real directories.",
    technique="Lean 4 proof over a finite-map directory model + operation-sequence differential on real directories"),
+ "C17": dict(
+   text="Lean 4 proof: a configuration is accepted iff Model, MemSpec and AsmType are documented values (C17_accept); building fails iff some IoAddrConfig entry is not a recognised port specification (C17_ports); the machine built from an accepted configuration has the documented CPU model, the documented memory, the coprocessor units of the flag bits and one port per entry at the documented address (C17_exact); its instruction set is the data-sheet set of its model, 65C02 extensions iff 65C02 (C17_isa, C17_extensions). All over regenerated facts: allow-lists, MemSpec switch, parser order, port regexes, CPU model test, opcode table (C17_facts). Save/Load round trip trusts encoding/json and is checked by execution only.",
+   technique="Lean 4 proof over regenerated configuration facts + behavioural probing differential"),
 }
 
 checks = []
